@@ -314,11 +314,18 @@ def _(c):
     c.ensure("velocity_is_derivative", bool(ok_fd))
 
 
+def T_tt(date):
+    return (date.change_scale("TT").jd - 2451545.0) / 36525.0
+
+
 def _grid_chain(tier, rng):
     """dates: 1 Jan / 1 Jul 1975-2015 every 5 years (+ 30 seeded, thorough), real EOP"""
     for y in range(1975, 2016, 5):
         for m in (1, 7):
             yield {"y": y, "m": m, "d": 1}
+    # either side of the dates at which a model changes: 1992-02-27, 1997-02-27 (equation of the equinoxes), leap seconds
+    for y, m, d in ((1992, 2, 26), (1992, 2, 28), (1994, 6, 15), (1997, 2, 26), (1997, 2, 27), (1997, 2, 28), (1997, 6, 30), (1997, 7, 1), (2012, 6, 30), (2012, 7, 1)):
+        yield {"y": y, "m": m, "d": d}
     if tier != "quick":
         for k in range(30):
             yield {"y": rng.randrange(1974, 2017), "m": rng.randrange(1, 13), "d": rng.randrange(1, 28)}
@@ -345,6 +352,14 @@ def _(c):
     Tu = (ut1.jd - 2451545.0) / 36525.0
     gmst = (67310.54841 + (876600 * 3600 + 8640184.812866) * Tu + 0.093104 * Tu ** 2 - 6.2e-6 * Tu ** 3) % 86400 / 240.0
     c.ensure("gmst82_independent", abs((iau1980._sideral(date) - gmst + 180) % 360 - 180) <= 1e-7)
+    # apparent sidereal time: GMST + dpsi cos(eps) (+ the two lunar-node terms from 1997-02-27 on, IAU 1994 C7); dpsi and eps from the library's own nutation series
+    eps_bar, dpsi, _ = iau1980._nutation(date, True, 106)
+    eqe = dpsi * 3600 * math.cos(math.radians(eps_bar))
+    if date.d >= 50506:
+        om = 125.04455501 - (5 * 360.0 + 134.1361851) * T_tt(date) + 0.0020756 * T_tt(date) ** 2 + 2.139e-6 * T_tt(date) ** 3
+        eqe += 0.00264 * math.sin(math.radians(om)) + 0.000063 * math.sin(math.radians(2 * om))
+    gast = iau1980._sideral(date, model="apparent")
+    c.ensure("gast_independent", abs((gast - (gmst + eqe / 3600) + 180) % 360 - 180) <= 1e-8)
     era = (2 * math.pi * (0.7790572732640 + 1.00273781191135448 * (ut1.jd - 2451545.0))) % (2 * math.pi)
     d_ = (iau2010._sideral(date) - era + math.pi) % (2 * math.pi) - math.pi
     c.ensure("era_independent", abs(d_) <= 1e-6)
@@ -397,3 +412,30 @@ def _(c):
     c.ensure("file_not_empty_and_has_negative_pole_x", n > 10000 and n_neg > 1000)
     for k, v in ok.items():
         c.ensure(f"field.{k if k in ('x', 'y', 'ut1_utc', 'lod') else 'correction_' + str(1 + (k == d2))}", v)
+
+
+@contract("C02", "equinox", funcs=[f"{I80}:equinox"], level="proof",
+          assumptions=["callee contract: _nutation(date) returns (mean obliquity, nutation in longitude, nutation in obliquity) in degrees -- any reals (its series: bounded, C02.chains.native)",
+                       "IAU resolution C7 (1994): the two terms depending on the Moon's node enter the equation of the equinoxes from 1997-02-27 0h UTC = MJD 50506 on"])
+def _(c):
+    """proved: the equation of the equinoxes is dpsi * cos(mean obliquity), plus 0.00264" sin(Om) + 0.000063" sin(2 Om) -- Om the mean longitude of the Moon's node,
+    125.04455501 deg - (5 rev + 134.1361851 deg) T + 0.0020756 T^2 + 2.139e-6 T^3, T in Julian centuries TT -- exactly for the dates from MJD 50506 (1997-02-27) on and
+    only when the kinematic terms are asked for; returned in degrees"""
+    if not c.symbolic:
+        return
+    eb, dpsi, deps = c.real("eps_bar"), c.real("dpsi"), c.real("deps")
+    T = c.real("T")
+    day = c.integer("mjd_day")
+    kin = bool(c.boolean("kinematic"))
+    date = types.SimpleNamespace(d=day, change_scale=lambda s: types.SimpleNamespace(julian_century=T) if s == "TT" else None)
+    w = c.world(stubs={f"{I80}:_nutation": lambda date, eop_correction, terms: (eb, dpsi, deps)})
+    got = w.fn(f"{I80}:equinox")(date, True, 106, kin)
+    om = 125.04455501 - (5 * 360.0 + 134.1361851) * T + 0.0020756 * T ** 2 + 2.139e-6 * T ** 3
+    base = dpsi * 3600 * sym.cos(sym.radians(eb))
+    moon = F(264, 100000) * sym.sin(sym.radians(om)) + F(63, 1000000) * sym.sin(sym.radians(2 * om))
+    applies = sym.And(day >= 50506, kin) if kin else False
+    if kin:
+        c.ensure("from_1997_02_27_with_the_node_terms", sym.Implies(day >= 50506, got * 3600 == base + moon))
+        c.ensure("before_1997_02_27_without_them", sym.Implies(day < 50506, got * 3600 == base))
+    else:
+        c.ensure("without_kinematic_terms_when_not_asked", got * 3600 == base)
